@@ -303,8 +303,24 @@ fn run_program_case(e: &mut Ent) -> (Option<String>, Value) {
             c.extend(encode(&Insn::Store { sz: Sz::B, s: 8, ea: Ea::A24(reg) }));
         }
     }
-    // timer storm: fastest clock, every interrupt enabled, tiny compare values, vectors point nowhere special
-    if e.chance(1, 3) {
+    // the stack somewhere unusual while interrupts arrive: on-chip registers (timers, bus controller, ports),
+    // region edges, unmapped space - the frames of accepted requests then go through every branch of Bus::write
+    // from inside the run loop
+    let odd_stack = e.chance(1, 2);
+    if odd_stack {
+        let sp = match e.below(8) {
+            0 => 0xffff80 + e.below(0x20),
+            1 => 0xfee000 + e.below(0x110),
+            2 => 0xffffd0 + e.below(0x14),
+            3 => 0xffff20 + e.below(0x60),
+            4 => 0xffbf20 + e.below(8),
+            5 => 0xffff20 - e.below(8),
+            _ => e.pick(&ADVERSARIAL) & 0xff_ffff,
+        } & !(e.below(2));
+        c.extend(encode(&Insn::MovImm { sz: Sz::L, imm: sp, d: 7 }));
+    }
+    // timer storm: fastest clock, every interrupt enabled, tiny compare values
+    if e.chance(1, 3) || (odd_stack && e.chance(2, 3)) {
         for (a, v) in [(0x84u8, 1 + e.below(3)), (0x86, 2 + e.below(3)), (0x80, 0xe0 | (e.below(2) << 3) | 1)] {
             c.extend(encode(&Insn::MovImm { sz: Sz::B, imm: v, d: 8 }));
             c.extend(encode(&Insn::Store { sz: Sz::B, s: 8, ea: Ea::A8(a) }));
@@ -358,12 +374,19 @@ fn run_program_case(e: &mut Ent) -> (Option<String>, Value) {
     let disp = top as i32 - (c.len() as i32 + 2);
     c.extend(encode(&Insn::Bcc { cond: 6, disp, wide: false }));
     let exit = 0x416900 + c.len() as u32;
-    let case = json!({"kind": "fault-program", "code": hex(&c), "exit": exit});
-    (run_code(&c, exit, &[]), case)
+    // where the vectors of the timer requests lead: nowhere (address 0), or to an RTE right behind the program
+    let handler = if e.chance(1, 2) { Some(exit + 2) } else { None };
+    c.extend([0x54, 0x70, 0x56, 0x70]);
+    let case = json!({"kind": "fault-program", "code": hex(&c), "exit": exit, "handler": handler});
+    (run_code_ex(&c, exit, &[], handler), case)
+}
+
+fn run_code(code: &[u8], exit: u32, lines: &[String]) -> Option<String> {
+    run_code_ex(code, exit, lines, None)
 }
 
 /// execute `code` at the load base through the real run loop; returns the panic message, if any
-fn run_code(code: &[u8], exit: u32, lines: &[String]) -> Option<String> {
+fn run_code_ex(code: &[u8], exit: u32, lines: &[String], handler: Option<u32>) -> Option<String> {
     let (out_tx, out_rx) = channel::<String>();
     let (in_tx, in_rx) = channel::<String>();
     let mut cpu = Cpu::new();
@@ -396,6 +419,11 @@ fn run_code(code: &[u8], exit: u32, lines: &[String]) -> Option<String> {
     cpu.er[2] = 0x416900;
     cpu.er[7] = 0x5f0000;
     cpu.exit_addr = exit;
+    if let Some(h) = handler {
+        for v in 12..64usize {
+            cpu.bus.exception_handling_vector[4 * v..4 * v + 4].copy_from_slice(&h.to_be_bytes());
+        }
+    }
     let r = {
         let c = &mut cpu;
         guarded(move || c.run().map_err(|e| e.to_string()))
@@ -663,7 +691,7 @@ fn replay_case(ctx: &Ctx, case: &Value) -> Option<String> {
         }
         Some("fault-program") => {
             let code = unhex(case.get("code")?.as_str()?)?;
-            run_code(&code, case.get("exit")?.as_u64()? as u32, &[])
+            run_code_ex(&code, case.get("exit")?.as_u64()? as u32, &[], case.get("handler").and_then(|h| h.as_u64()).map(|h| h as u32))
         }
         Some("fault-tcp-lines") => {
             let lines: Vec<String> = case.get("lines")?.as_array()?.iter().filter_map(|x| x.as_str().map(|s| s.to_string())).collect();
